@@ -58,12 +58,15 @@ def canon(v, depth=0):
 
 
 def outcome(obj, name, args):
+    """value (or exception type) AND the state the call leaves its arguments in: a helper that rewrites a caller's list in one
+    copy only computes different values on the next call with the same object"""
     try:
-        return 'val ' + canon(getattr(obj, name)(*args))
+        r = 'val ' + canon(getattr(obj, name)(*args))
     except BaseException as e:  # noqa
         if isinstance(e, (KeyboardInterrupt, SystemExit)):
             raise
-        return 'exc ' + type(e).__name__
+        r = 'exc ' + type(e).__name__
+    return r + ' || arguments afterwards: ' + canon(list(args))
 
 
 def digest(s):
